@@ -42,14 +42,7 @@ class World:
             meths: dict[str, ast.FunctionDef] = dict(extra or {})
             meths.update(m.methods(cls))
             props = {k for k, f in meths.items() if any(core.dotted(d) == "property" for d in f.decorator_list)}
-            consts = {}
-            for st in m.tree.body:
-                if isinstance(st, ast.ImportFrom) and st.module == "pendulum.constants":
-                    for a in st.names:
-                        try:
-                            consts[a.asname or a.name] = core.const("constants", a.name)
-                        except Exception:       # noqa: BLE001
-                            pass
+            consts = minieval.module_consts(m)
             funcs = {st.name: st for st in m.top() if isinstance(st, ast.FunctionDef)}
             World._STATIC[key] = (m, meths, props, consts, funcs)
         _, self.meths, self.props, consts, funcs = World._STATIC[key]
